@@ -1124,6 +1124,9 @@ def run(ctx):
     for entry in UDP_ENTRIES:
         for opts in ALL_OPTS:
             schemes = ["fast", "forever"] + ctx.pick([], ["mixed"]) + ["dl@%d" % k for k in range(depth + 1)]
+            if ctx.quick and ("-" in entry or "+" in entry):
+                # variant entry points share the code of the five plain ones
+                schemes = ["fast", "dl@%d" % depth]
             for scheme in schemes:
                 tasks.append((udp_task, (entry, "v4", opts, scheme, depth, 0)))
             for cfg in ("v6", "mc4", "mc6"):
@@ -1139,9 +1142,9 @@ def run(ctx):
     if ctx.quick:
         groups = [
             (("read", "sync.receive_tcp", "small", 3, 1), 8),
-            (("read", "sync.receive_tcp", "small", 2, 2), 16),
+            (("read", "sync.receive_tcp", "small", 1, 2), 4),
             (("read", "async.receive_tcp", "small", 3, 1), 8),
-            (("read", "async.receive_tcp", "small", 2, 2), 16),
+            (("read", "async.receive_tcp", "small", 1, 2), 4),
             (("read", "sync.receive_tcp", "medium", 2, 0), 2),
             (("read", "sync.receive_tcp", "medium", 1, 1), 4),
             (("read", "async.receive_tcp", "medium", 1, 1), 4),
@@ -1152,7 +1155,7 @@ def run(ctx):
             (("read-end", "sync.receive_tcp", "medium", 0, 1), 2),
             (("read-end", "async.receive_tcp", "medium", 0, 1), 2),
             (("write", "sync.send_tcp", "bytes", 3, 1), 4),
-            (("write", "sync.send_tcp", "message", 2, 2), 16),
+            (("write", "sync.send_tcp", "message", 1, 2), 4),
             (("write", "async.send_tcp", "bytes", 0, 2), 1),
             (("write", "async.send_tcp", "message", 0, 2), 1),
             (("exchange", "sync.tcp", 1, 1, 1, 0), 4),
